@@ -50,22 +50,45 @@ class _FakeStdin:
 
 
 class _PipeStdin:
-    """sys.stdin stand-in over a real OS pipe fed, by a thread, in pieces that
-    do not line up with samples or windows and arrive a little apart."""
+    """sys.stdin stand-in over a real OS pipe fed by a thread in pieces that do not line up with
+    samples or windows.  The feeder writes the next piece only once the pipe has been drained, so a
+    reader that settles for "whatever is there" (read1) deterministically sees short chunks, while a
+    blocking read() of n bytes gets its n bytes whatever the timing."""
 
-    def __init__(self, data, sizes):
+    def __init__(self, data, sizes, text=False):
+        import array
+        import fcntl
+        import termios
+
         rfd, wfd = os.pipe()
-        self.buffer = io.BufferedReader(io.FileIO(rfd, "rb"))
+        raw = io.BufferedReader(io.FileIO(rfd, "rb"))
+        if text:
+            self._wrapper = io.TextIOWrapper(raw, encoding="latin-1")
+            self.buffer = self._wrapper.buffer
+        else:
+            self.buffer = raw
+        self.stop = False
+
+        def unread():
+            buf = array.array("i", [0])
+            try:
+                fcntl.ioctl(rfd, termios.FIONREAD, buf)
+            except OSError:
+                return 0
+            return buf[0]
 
         def feed():
             pos = i = 0
             try:
-                while pos < len(data):
+                while pos < len(data) and not self.stop:
+                    t0 = time.time()
+                    while unread() > 0 and not self.stop and time.time() - t0 < 20:
+                        time.sleep(0.0002)
                     n = sizes[i % len(sizes)]
                     os.write(wfd, data[pos: pos + n])
                     pos += n
                     i += 1
-                    time.sleep(0.0004)
+                    time.sleep(0.0003)
             except OSError:
                 pass
             finally:
@@ -75,6 +98,7 @@ class _PipeStdin:
         self.thread.start()
 
     def finish(self):
+        self.stop = True
         try:
             self.buffer.close()
         except OSError:
